@@ -71,11 +71,29 @@ def build(repo, findings):
     ])
     u.add(d)
     vs.require_text(r'pub const fn value\(&self\) -> &ShellValue \{\s*&self\.value\s*\}', 'ShellVariable::value is `&self.value`')
+    # (c) which variable of a scope may stand for its name in iter_exported: the filter closure, read into a generated function
+    import re
+    from vx.extract import ExtractError, fn_span
+    ev = u.source('brush-core/src/env.rs')
+    b, o, e = fn_span(ev.text, 'iter_exported')
+    m = re.search(r'\.filter\(\|\(_, v\)\| ([^\n]*?)\)\s*\{?\s*\n', ev.text[o:e])
+    if not m or '.filter(' in ev.text[o:e][m.end():]:
+        raise ExtractError('unsupported: iter_exported no longer picks the variables of a scope with exactly one `.filter(|(_, v)| ..)`')
+    body = m.group(1).strip()
+    body = re.sub(r'\bv\.value\(\)', 'v.value', body)
+    body = re.sub(r'\bv\.is_exported\(\)', 'v.exported', body)
+    u.raw('''// GENERATED on every run from the closure of `.filter(..)` in ShellEnvironment::iter_exported (brush-core/src/env.rs); accessors inlined (R22)
+fn stands_for_its_name_in_the_export_list(v: &ShellVariable) -> (r: bool)
+    ensures
+        //@ env.rs:iter_exported:filter | C09 an-exported-variable-without-a-value-does-not-hide-an-outer-exported-one-that-has-one
+        r == (v.exported && v.value.set_spec()),
+{ %s }
+''' % body, origin='generated from brush-core/src/env.rs fn iter_exported')
     u.raw(FOOTER)
     u.assume('external_body', 'Env::get_mut (the visible variable, or None), ShellVariable::assign (attributes left alone: ASSUMED), ShellValue::is_set / to_cow_str (uninterpreted), Command::env (inserts one entry)')
     u.assume('uninterp', 'ShellValue::set_spec, ShellValue::text')
-    u.assume('stub', 'which variables iter_exported yields, update_or_add (calls the updater on the variable it finds or creates), the function branch of export and clap parsing are NOT verified here')
-    u.expected_min_fns = 6
+    u.assume('stub', 'the scope walk of iter_exported (innermost first, first variable per name that passes the filter: read, not proved), update_or_add (calls the updater on the variable it finds or creates), the function branch of export and clap parsing are NOT verified here')
+    u.expected_min_fns = 7
     u.counterexample = replay_scripts(repo, [
         ('export E=; F= env | grep -c "^[EF]=$"', '2\n'),
         ('V=a; export V+=b; declare -p V; env | grep "^V="', 'declare -x V="ab"\nV=ab\n'),
